@@ -294,7 +294,13 @@ def run(ctx):
     for k in (K('user'), K('tok'), K('passwor'), K(''), K(5), K((1, 2)),
               K(b'password'), K(None), K('pass word'), K('new-pass'),
               K('admin-pass'), K('X-SYS-PSWD-2'), K('private.key'),
-              K('pass_word'), K('p\u0430ssword')):
+              K('pass_word'), K('p\u0430ssword'),
+              # characters that only a case-insensitive *match* folds onto
+              # ASCII letters (long s, dotless i, dotted capital I, Kelvin
+              # sign): str.lower() leaves them different from the key
+              K('pa\u017f\u017fword'), K('adm\u0131n_pass'),
+              K('ADM\u0130N_PASS'), K('to\u212aen'),
+              K('\u017fecret'), K('pa\u017fsphrase')):
         for v in (K('text'), K(7), K(None), K(b'bytes'),
                   # secrets embedded in every notation mask_password knows,
                   # and values made of other characters only
